@@ -7,10 +7,15 @@ import json, os, re, shutil, subprocess, sys, time, hashlib
 
 ROOT = os.path.dirname(os.path.dirname(os.path.abspath(__file__)))
 SPEC = os.path.join(ROOT, "spec")
-HARNESS_DIR = os.path.join(ROOT, "harness")
-TARGET = os.path.join(ROOT, "target")
+# The tree under test is /repo. For experiments on a changed copy (bin/seedtest) VERIF_REPO names another checkout and
+# VERIF_OUT a scratch directory that then receives the harness copy, build output, run files, evidence and replays,
+# so that neither /repo nor /verif's own evidence is touched.
+REPO = os.path.abspath(os.environ.get("VERIF_REPO", "/repo"))
+OUT = os.path.abspath(os.environ.get("VERIF_OUT", ROOT))
+ALT = OUT != ROOT
+HARNESS_DIR = os.path.join(OUT if ALT else ROOT, "harness")
+TARGET = os.path.join(OUT if ALT else ROOT, "target")
 KVH = os.path.join(TARGET, "harness", "release", "kvh")
-REPO = os.environ.get("VERIF_REPO", "/repo")
 JAR = "/opt/veriftools/tla/tla2tools.jar:/opt/veriftools/tla/CommunityModules-deps.jar"
 NCPU = os.cpu_count() or 4
 
@@ -65,6 +70,12 @@ def build_harness():
     """Rebuild the harness (path deps on /repo's working tree, feature verif_hooks). Incremental."""
     if "harness" in _built:
         return KVH
+    if ALT and not os.path.exists(os.path.join(HARNESS_DIR, "Cargo.toml")):
+        # a private copy of the harness whose path dependencies point at the alternative checkout
+        src = os.path.join(ROOT, "harness")
+        shutil.copytree(src, HARNESS_DIR, ignore=shutil.ignore_patterns("target", "Cargo.lock"))
+        t = open(os.path.join(HARNESS_DIR, "Cargo.toml")).read().replace('path = "/repo/', 'path = "%s/' % REPO)
+        open(os.path.join(HARNESS_DIR, "Cargo.toml"), "w").write(t)
     lock = os.path.join(HARNESS_DIR, "Cargo.lock")
     # always start from /repo's lock file so that no resolution (network) is needed
     if not os.path.exists(lock):
@@ -159,7 +170,7 @@ def tlc(module, cfg=None, env=None, workers=None, trace=False, timeout=1800, run
         simulate=None, depth=None, extra=None, heap=None):
     """Run TLC on spec/<module>.tla with spec/<cfg>.cfg. Returns TlcResult; raises ToolError on tool failures."""
     cfg = cfg or module
-    rundir = rundir or os.path.join(ROOT, "run", "tlc")
+    rundir = rundir or os.path.join(OUT, "run", "tlc")
     import uuid
     meta = os.path.join(rundir, "states-%s-%s" % (cfg, uuid.uuid4().hex[:12]))
     os.makedirs(rundir, exist_ok=True)
@@ -340,7 +351,7 @@ class Ctx:
         self.tier = tier
         self.seed = seed
         self.t0 = time.time()
-        self.rundir = os.path.join(ROOT, "run", pid)
+        self.rundir = os.path.join(OUT, "run", pid)
         shutil.rmtree(self.rundir, ignore_errors=True)
         os.makedirs(self.rundir, exist_ok=True)
         self.states = 0
@@ -357,6 +368,7 @@ class Ctx:
         self.exhaustive = True
         self.rule = ""
         self.findings = load_findings()
+        self.deferred = []        # tool problems that only matter if no violation is established by the remaining stages
 
     def thorough(self):
         return self.tier == "thorough"
@@ -389,8 +401,8 @@ class Ctx:
                 print("KNOWN-FINDING: property=%s %s" % (self.pid, f.get("what", "")), flush=True)
                 return False
         n = len(self.violations) + 1
-        os.makedirs(os.path.join(ROOT, "replays"), exist_ok=True)
-        path = os.path.join(ROOT, "replays", "%s-%s-%d-%d.json" % (self.pid, self.tier, self.seed, n))
+        os.makedirs(os.path.join(OUT, "replays"), exist_ok=True)
+        path = os.path.join(OUT, "replays", "%s-%s-%d-%d.json" % (self.pid, self.tier, self.seed, n))
         obj = {"property": self.pid, "tier": self.tier, "seed": self.seed, "stage": stage, "case": case,
                "detail": detail, "rerun": "bin/check %s %s --replay %s" % (self.pid, self.tier, path)}
         with open(path, "w") as f:
@@ -415,8 +427,8 @@ class Ctx:
         }
         if self.known:
             ev["coverage"]["known_findings_hit"] = [k[0].get("id") for k in self.known]
-        os.makedirs(os.path.join(ROOT, "evidence"), exist_ok=True)
-        with open(os.path.join(ROOT, "evidence", self.pid + ".json"), "w") as f:
+        os.makedirs(os.path.join(OUT, "evidence"), exist_ok=True)
+        with open(os.path.join(OUT, "evidence", self.pid + ".json"), "w") as f:
             json.dump(ev, f, indent=1, default=str)
         return 1 if self.violations else 0
 
@@ -497,7 +509,7 @@ def validate_trace(ctx, module, trace, stage, run_ev, env=None, cfg=None, timeou
                 case["event"] = detail["judged_event"]
             except Exception:
                 pass
-    keep = os.path.join(ROOT, "replays", "%s-%s-%d-%s" % (ctx.pid, ctx.tier, ctx.seed, os.path.basename(trace)))
+    keep = os.path.join(OUT, "replays", "%s-%s-%d-%s" % (ctx.pid, ctx.tier, ctx.seed, os.path.basename(trace)))
     os.makedirs(os.path.dirname(keep), exist_ok=True)
     shutil.copyfile(trace, keep)
     detail["trace_file"] = keep
